@@ -580,6 +580,12 @@ impl World {
 		if remine {
 			self.mine(&mut b, mine_diff);
 		}
+		// with AutomatedTesting's short cycles a proof mutated in place can, now and then, still be a
+		// valid proof (e.g. the same nonces at edge_bits + 1): then the header is not invalid at all
+		if matches!(kind, "hdr-edge-bits" | "hdr-proof-nonce" | "hdr-nonce-unmined") && grin_core::pow::verify_size(&b.header).is_ok() {
+			*self.stats.entry("pow_mutation_still_valid_skipped".into()).or_insert(0) += 1;
+			return None;
+		}
 		Some(self.push_bad(parent, b, kind, true))
 	}
 
